@@ -300,6 +300,32 @@ pub mod kernels {
         reach!(r.contains(&q.x), "reach.hit");
     }
     // (the same kernel with 3-bit vertices gave no verdict in 2700 s)
+
+    /// WIDE, FLAT triangles: x in [0,7], y in [0,1]. Shallow x-major edges have several pixels on one
+    /// row, which is where a scanline that unites fewer than all three edges loses edge pixels
+    /// (no such triangle fits into [0,3]^2).
+    fn pw() -> Point { Point::new(small_u(3) as i32, small_u(1) as i32) }
+    #[cfg_attr(kani, kani::proof, kani::unwind(11))]
+    pub fn c05_c19_q_k_tri_row_eq_wide() {
+        let (a, b, c) = (pw(), pw(), pw());
+        let t = Triangle::new(a, b, c);
+        kani::assume(cross(a, b, c) != 0);
+        let q = Point::new(small_u(4) as i32 - 4, small_u(2) as i32 - 1);
+        note!("triangle", t); note!("q", q);
+        let r = hk::triangle_scanline_at(&t, q.y);
+        note!("row", r); note!("contains", t.contains(q));
+        check!(r.contains(&q.x) == t.contains(q), "C05.row_exact");
+        // every pixel of the three edge lines (rasterised from the (y, x)-sorted end points, the direction
+        // the fill code uses) belongs to the filled triangle
+        let mut on_edge = false;
+        for (u, v) in [(a, b), (b, c), (a, c)] {
+            let (e0, e1) = if (u.y, u.x) <= (v.y, v.x) { (u, v) } else { (v, u) };
+            for e in Line::new(e0, e1).points() { if e == q { on_edge = true; } }
+        }
+        if on_edge { check!(r.contains(&q.x), "C19.shared_edge_pixels"); }
+        reach!(r.contains(&q.x), "reach.hit");
+        reach!(on_edge && q != a && q != b && q != c, "reach.inner_edge_pixel");
+    }
 }
 
 /// Reachability twin.
